@@ -178,6 +178,7 @@ class Inliner:
         body = [s for s in node.body]
         if body and isinstance(body[0], ast.Expr) and isinstance(body[0].value, ast.Constant) and isinstance(body[0].value.value, str):
             body = body[1:]
+        body = decount(body)
         assigned = _assigned_names(body)
         mapping, pre = {}, []
         kw = {x.arg: x.value for x in call.keywords}
@@ -321,6 +322,18 @@ class Inliner:
         class V(ast.NodeTransformer):
             def visit_Call(self, n):
                 n = self.generic_visit(n)
+                if isinstance(n.func, ast.Name) and n.func.id == "sum" and len(n.args) == 1 and isinstance(n.args[0], ast.Call) \
+                        and isinstance(n.args[0].func, ast.Name) and n.args[0].func.id == "map" and len(n.args[0].args) == 2 and not n.args[0].keywords \
+                        and isinstance(n.args[0].args[0], ast.Name) and isinstance(n.args[0].args[1], ast.Name) and n.args[0].args[1].id == name:
+                    # sum(map(len, args)): the sum of len() of each argument of this call
+                    f = n.args[0].args[0]
+                    terms = [ast.Call(func=ast.Name(id=f.id, ctx=ast.Load()), args=[copy.deepcopy(t)], keywords=[]) for t in temps]
+                    if not terms:
+                        return ast.Constant(value=0)
+                    acc = terms[0]
+                    for t in terms[1:]:
+                        acc = ast.BinOp(left=acc, op=ast.Add(), right=t)
+                    return ast.fix_missing_locations(ast.copy_location(acc, n))
                 if isinstance(n.func, ast.Name) and n.func.id == "sum" and len(n.args) == 1 and isinstance(n.args[0], (ast.ListComp, ast.GeneratorExp)):
                     c = n.args[0]
                     if len(c.generators) == 1 and isinstance(c.generators[0].iter, ast.Name) and c.generators[0].iter.id == name \
@@ -648,6 +661,21 @@ def detuple(stmts):
             out.append(s)
             i += 1
             continue
+        if isinstance(s, ast.Assign) and len(s.targets) == 1 and isinstance(s.targets[0], (ast.Tuple, ast.List)) \
+                and all(isinstance(e, ast.Name) for e in s.targets[0].elts) and isinstance(s.value, (ast.ListComp, ast.GeneratorExp)) \
+                and len(s.value.generators) == 1 and not s.value.generators[0].ifs and isinstance(s.value.generators[0].target, ast.Name) \
+                and isinstance(s.value.generators[0].iter, (ast.Tuple, ast.List)) \
+                and len(s.value.generators[0].iter.elts) == len(s.targets[0].elts) \
+                and all(_simple(e) for e in s.value.generators[0].iter.elts):
+            # a, b, c = [E(m) for m in (m1, m2, m3)]  ->  a = E(m1); b = E(m2); c = E(m3)   (the targets are not read by E)
+            var = s.value.generators[0].target.id
+            tnames = {e.id for e in s.targets[0].elts}
+            if not any(isinstance(x, ast.Name) and x.id in tnames for x in ast.walk(s.value.elt)):
+                for t_, m in zip(s.targets[0].elts, s.value.generators[0].iter.elts):
+                    v = _Subst({var: m}, {}).visit(copy.deepcopy(s.value.elt))
+                    out.append(ast.fix_missing_locations(ast.copy_location(ast.Assign(targets=[t_], value=v, lineno=s.lineno), s)))
+                i += 1
+                continue
         if isinstance(s, ast.Assign) and len(s.targets) == 1 and isinstance(s.targets[0], ast.Name) and isinstance(s.value, ast.Tuple) \
                 and s.targets[0].id.startswith("__h"):
             tmp = s.targets[0].id
@@ -695,6 +723,32 @@ def split_assignments(stmts):
         else:
             out.append(s)
     return out
+
+
+def decount(stmts):
+    """for v in count(k): if not T(v): return E   (nothing else in the loop, as the last statement)
+       ->   v = k; while T(v): v += 1; return E        - the same search for the first v >= k at which T fails."""
+    if not stmts or not isinstance(stmts[-1], ast.For):
+        return stmts
+    f = stmts[-1]
+    it = f.iter
+    if not (isinstance(f.target, ast.Name) and not f.orelse and isinstance(it, ast.Call) and not it.keywords and len(it.args) in (0, 1)
+            and (getattr(it.func, "id", None) == "count" or getattr(it.func, "attr", None) == "count")
+            and len(f.body) == 1 and isinstance(f.body[0], ast.If) and not f.body[0].orelse
+            and len(f.body[0].body) == 1 and isinstance(f.body[0].body[0], ast.Return)):
+        return stmts
+    test = f.body[0].test
+    cont = test.operand if isinstance(test, ast.UnaryOp) and isinstance(test.op, ast.Not) else ast.UnaryOp(op=ast.Not(), operand=test)
+    v = f.target.id
+    start = it.args[0] if it.args else ast.Constant(value=0)
+    init = ast.Assign(targets=[ast.Name(id=v, ctx=ast.Store())], value=start)
+    step = ast.AugAssign(target=ast.Name(id=v, ctx=ast.Store()), op=ast.Add(), value=ast.Constant(value=1))
+    w = ast.While(test=cont, body=[step], orelse=[])
+    out = [init, w, f.body[0].body[0]]
+    for x in out:
+        ast.copy_location(x, f)
+        ast.fix_missing_locations(x)
+    return stmts[:-1] + out
 
 
 def demap(stmts, mod):
